@@ -49,7 +49,10 @@ def requirements(sched):
 def script_time(steps):
     if not steps or steps == 'never':
         return 0.0
-    return sum(arg for op, arg in steps if op == 'sleep')
+    # (a "guard" step [d, c]: an operation bounded by asyncio.timeout(d) that
+    # needs c to clean up once given up on - the step takes d + c)
+    return sum(arg if op == 'sleep' else sum(arg) if op == 'guard' else 0
+               for op, arg in steps)
 
 
 def never_ends_alone(job):
